@@ -15,10 +15,10 @@ pub fn info() -> PropInfo {
     PropInfo {
         id: "C08",
         level: "exploration",
-        rule: "proptest: the harness is the issuer. A generated (claims, strategy) tree is packed by the harness's own encoder into payload + disclosures, with 0-3 deviations drawn from: member/element disclosures of arity 0..5 or not arrays, non-string / reserved (_sd, ...) / colliding / _sd_alg names, 2-element referenced from _sd, 3-element referenced from ..., unparseable referenced strings, digest repeated within one _sd / across levels / as placeholder, twin decoys, non-string _sd entries, non-array _sd, placeholders with extra members / non-string digests / as member values, _sd_alg absent / sha-256 / other strings, plus unreferenced, repeated, removed and shuffled disclosures; signed with the test key. Oracle = from-scratch implementation of draft-07 8.1 steps 3-4: MustReject => Err; Claims(v) => Err or exactly v; ambiguous spots not asserted. Non-trivial: MustReject case, or an Ok whose claims were compared. Distinct: hash of the case JSON.",
+        rule: "proptest: the harness is the issuer. A generated (claims, strategy) tree is packed by the harness's own encoder into payload + disclosures, with 0-3 deviations drawn from: member/element disclosures of arity 0..5 or not arrays, non-string / reserved (_sd, ...) / colliding / _sd_alg names, 2-element referenced from _sd, 3-element referenced from ..., unparseable referenced strings, digest repeated within one _sd / across levels / as placeholder, twin decoys, non-string _sd entries, non-array _sd, placeholders with extra members / non-string digests / as member values, _sd_alg absent / sha-256 / other strings, plus unreferenced, repeated, removed and shuffled disclosures, a nested object carrying its own _sd_alg member ahead of the top-level one, and hand-made self-similar chains (every level references the next digest twice, depth 8..33); signed with the test key. Oracle = from-scratch implementation of draft-07 8.1 steps 3-4: MustReject => Err; Claims(v) => Err or exactly v; ambiguous spots not asserted. Non-trivial: MustReject case, or an Ok whose claims were compared. Distinct: hash of the case JSON.",
         assumptions: &[
             "literal reading of the draft where it is silent (an _sd that is not an array of strings, or a '...' object with other members, carries no embedded digest); Err is always accepted there",
-            "_sd_alg below the top level and non-string _sd_alg are outside the asserted domain",
+            "what becomes of a member named _sd_alg below the top level, and a non-string _sd_alg, are not asserted (a top-level unsupported _sd_alg must be refused whatever sits below)",
         ],
         needs_mock: false,
         rounds: 4,
@@ -67,7 +67,21 @@ fn extreme_tree() -> BoxedStrategy<sdjwt_model::tree::MNode> {
     prop_oneof![deep, wide].boxed()
 }
 
+/// Self-similar structures built by hand: every level's disclosure references the next level's
+/// digest TWICE (in two sibling `_sd` lists, in one list, or in two array placeholders). The draft
+/// demands rejection (a digest encountered more than once); a processor that walks every reference
+/// before noticing does 2^depth work.
+fn doubling_chain() -> BoxedStrategy<Case> {
+    (doubling_chain_parts(), fmt_strategy())
+        .prop_map(|((payload, disclosures), fmt)| C08Case { payload, disclosures, fmt, alg: Alg::HS256, deviations: vec!["handmade:doubling_chain".into()] })
+        .boxed()
+}
+
 pub fn strategy() -> BoxedStrategy<Case> {
+    prop_oneof![40 => packed_strategy(), 1 => doubling_chain()].boxed()
+}
+
+fn packed_strategy() -> BoxedStrategy<Case> {
     let tree = prop_oneof![
         12 => claims_and_strategy(ClaimCfg::FULL, HONEST_PATHS).prop_map(|(claims, strat)| mark(&claims, &strat).unwrap()),
         2 => extreme_tree(),
@@ -85,8 +99,9 @@ pub fn strategy() -> BoxedStrategy<Case> {
         prop_oneof![Just(Alg::HS256), Just(Alg::ES256)],
         any::<bool>(),
         proptest::collection::vec(any::<u16>(), 0..6),
+        0u8..32,
     )
-        .prop_map(|(tree, ch, budget, sd_alg, fmt, alg, decoys, list_ops)| {
+        .prop_map(|(tree, ch, budget, sd_alg, fmt, alg, decoys, list_ops, nest)| {
             let mut c = Choices::new(&ch);
             let sd_alg_dev = matches!(&sd_alg, Some(Value::String(s)) if s != "sha-256");
             let packed = Packer::new(&mut c, 18, budget, decoys).pack_root(&tree, sd_alg);
@@ -129,8 +144,26 @@ pub fn strategy() -> BoxedStrategy<Case> {
                 }
                 _ => {}
             }
-            let _ = digest;
-            C08Case { payload: Value::Object(packed.payload), disclosures, fmt, alg, deviations }
+            // a member named _sd_alg below the top level, in an object that precedes the top-level
+            // _sd_alg: only the top-level member says which hash is used (what becomes of the
+            // nested member itself is not asserted)
+            let mut payload = packed.payload;
+            let pick = nest as usize;
+            if pick < 2 {
+                deviations.push("nested__sd_alg_member".into());
+                let nested = [json!("sha-256"), json!("sha-512"), json!("sha-256"), json!(7)][(nest as usize / 2 + list_ops.len()) % 4].clone();
+                let mut np = serde_json::Map::new();
+                if pick == 0 {
+                    np.insert("aa_meta".into(), json!({"_sd_alg": nested, "k": 1}));
+                } else {
+                    np.insert("aa_list".into(), json!([{"k": [{"_sd_alg": nested}]}]));
+                }
+                for (k, v) in payload {
+                    np.insert(k, v);
+                }
+                payload = np;
+            }
+            C08Case { payload: Value::Object(payload), disclosures, fmt, alg, deviations }
         })
         .boxed()
 }
